@@ -39,6 +39,20 @@ CHECKS = {
         COSCHED_NOTE,
         "DESIGN.md section 2.1 and section 4, C01",
     ),
+    "C02": (
+        "cosched",
+        "stateless exhaustive schedule exploration of the real runtime with iterative "
+        "deviation bounding",
+        "Termination trigger (failure per flavour, SIGINT, shutdown(), MetaRunner.stop()) x "
+        "population of running coroutine payloads (sleeping, spinning, adopted from another "
+        "payload, adopted while the trigger fires; synchronous and shielded cleanup) x blocked "
+        "thread payloads, each under every schedule within 1 (quick) / 2 (thorough) "
+        "deviations, the SIGINT arrival point being one of the explored choices. Oracle on "
+        "the payloads' own event log: cancelled through the framework's exception, cleanup "
+        "finished before the run call ended, no step afterwards, run call ended.",
+        COSCHED_NOTE,
+        "DESIGN.md section 2.1 and section 4, C02",
+    ),
     "C17": (
         "smallscope",
         "bounded-exhaustive input enumeration against an independent line-protocol parser",
